@@ -27,11 +27,13 @@ const (
 	kPtrPtr
 	kTyped
 	kIfacePtr // pointer to an interface holding the map rep (*interface{})
+	kChildCfg // *Config that is a named child of another config (obtained with Child), held under another key here
+	kElemCfg  // *Config that is a list element of another config
 	numRepKinds
 )
 
 func (k repKind) String() string {
-	return [...]string{"map[string]interface{}", "map[interface{}]interface{}", "struct", "*Config", "Config", "*map", "**map", "typed", "*interface{}"}[k]
+	return [...]string{"map[string]interface{}", "map[interface{}]interface{}", "struct", "*Config", "Config", "*map", "**map", "typed", "*interface{}", "*Config (child of another config)", "*Config (list element of another config)"}[k]
 }
 
 var c05Leaves = []interface{}{true, int(1), uint(2), int(-3), 1.5, "s", "", int8(4), float32(2.5), uint16(7), int64(-1 << 40), uint64(1<<63 + 5), float64(1 << 62)}
@@ -131,6 +133,25 @@ func buildRep(t *tree.Node, scheme []repKind, depth int) interface{} {
 		}
 		if kind == kConfigVal {
 			return *c
+		}
+		return c
+	case kChildCfg, kElemCfg:
+		var parent interface{} = map[string]interface{}{"formername": plain(), "sibling": 1}
+		if kind == kElemCfg {
+			parent = []interface{}{0, plain()}
+		}
+		pc, err := ucfg.NewFrom(parent)
+		if err != nil {
+			panic("harness: " + err.Error())
+		}
+		var c *ucfg.Config
+		if kind == kElemCfg {
+			c, err = pc.Child("", 1)
+		} else {
+			c, err = pc.Child("formername", -1)
+		}
+		if err != nil {
+			panic("harness: " + err.Error())
 		}
 		return c
 	case kPtr:
@@ -760,7 +781,7 @@ func init() {
 	core.Register(&core.Check{
 		ID:    "C05",
 		Level: "exploration",
-		Rule:  "every bounded tree with typed leaves (bool, ints of several kinds and signs, uint, floats, strings incl. empty) in every combination of Go representations per level (generic map, interface-keyed map, StructOf struct with and without tags, *Config, Config by value, pointers, pointer to interface, typed map/slice/array) must unpack to the canonical data of the tree and be idempotent under NewFrom(Unpack(.)) (data, FlattenedKeys, Has, IsDict/IsArray, CountField); every partial flattening into dotted keys gives the same data; every 2- and 3-entry input over overlapping dotted keys is rejected iff it defines a setting twice, in every insertion order; non-trivial = container with at least one leaf / any flattening or duplicate case",
+		Rule:  "every bounded tree with typed leaves (bool, ints of several kinds and signs, uint, floats, strings incl. empty) in every combination of Go representations per level (generic map, interface-keyed map, StructOf struct with and without tags, *Config (a root, a named child and a list element of another config), Config by value, pointers, pointer to interface, typed map/slice/array) must unpack to the canonical data of the tree and be idempotent under NewFrom(Unpack(.)) (data, FlattenedKeys, Has, IsDict/IsArray, CountField); every partial flattening into dotted keys gives the same data; every 2- and 3-entry input over overlapping dotted keys is rejected iff it defines a setting twice, in every insertion order; non-trivial = container with at least one leaf / any flattening or duplicate case",
 		Assumptions: []string{
 			"trees of depth<=2 over keys {a,b}, lists<=2; canonical form equates nil, absent, empty dict and empty list; numbers compared by value",
 			"insertion order for duplicates is fixed through struct field order (map orders are explored by C09)",
